@@ -70,3 +70,6 @@ impl Ctx {
 pub fn guarded<T>(f: impl FnOnce() -> T) -> Option<T> {
     std::panic::catch_unwind(std::panic::AssertUnwindSafe(f)).ok()
 }
+
+/// the authenticator's AAGUID in every authenticator / client level case (non-zero, so that a zeroed copy is visible)
+pub const AAGUID: [u8; 16] = [0xA1, 0xA2, 0xA3, 0xA4, 0xB1, 0xB2, 0xC1, 0xC2, 0xD1, 0xD2, 0xE1, 0xE2, 0xE3, 0xE4, 0xE5, 0xE6];
